@@ -584,3 +584,9 @@ Proof.
   unfold str in *. rewrite Hne. cbn [negb opt_map]. rewrite Hp at 1. rewrite mdvd_line_roundtrip by assumption.
   rewrite (IH Hrest). reflexivity.
 Qed.
+
+(* a document used by the non-vacuity examples of props/C03.v *)
+Definition ex_caps : list (str * list node) :=
+  [(lit "00:00:01,000 --> 00:00:02,000", [NText (lit "1"); NBreak; NBreak; NText (lit "00:00:05,000 --> x")]);
+   (lit "00:00:03,000 --> 00:00:04,000", [NBreak; NText (lit "b"); NBreak; NText []; NBreak])].
+
